@@ -14,6 +14,12 @@ class SimCrash(BaseException):
     in the code under test must not be able to swallow it)."""
 
 
+class SimInterrupt(SimCrash, KeyboardInterrupt):
+    """A SOFT interruption (Ctrl-C / SIGINT): it reaches the code under test as the KeyboardInterrupt it is in a real
+    process, so `except KeyboardInterrupt` handlers and `finally` blocks run with a working disk.  A hard kill stays a
+    plain SimCrash and the disk is dead from that instant (whatever a handler writes is lost)."""
+
+
 class Seams:
     """Numbers every seam event of one incarnation and fires the planned fault.
 
@@ -63,7 +69,7 @@ class Seams:
             if self.disk is not None:
                 self.disk.dead = True
         self.log.add("FAULT", action, kind)
-        raise SimCrash("%s at seam event %d (%s)" % (action, self.n, kind))
+        raise (SimCrash if action == "kill_hard" else SimInterrupt)("%s at seam event %d (%s)" % (action, self.n, kind))
 
     def seam(self, kind, *info, write_path=False):
         f = self.event(kind, *info)
